@@ -1,35 +1,30 @@
 /-
   StatsCI.Driver — line-protocol driver (compiled, Mathlib-free).
 
-  stdin : one request per line,  `<property> <entry> <type> <args…> => <implementation's output>`
-  stdout: one line per request that does not check (`DIFF`, `PROP`, `BAD`) and a final `SUMMARY`.
+  stdin : one request per line,
+            `<property> <entry> <type> <args…> => <implementation's output> [|| <critical values>]`
+  mode `need`: per line, the requests to the external quantile routine (`-` if none)
+  mode `eval`: one line per request that does not check (`DIFF`, `PROP`, `BAD`) and a final `SUMMARY`.
 -/
 import StatsCI.Driver.IntervalOps
+import StatsCI.Driver.StatOps
 
 namespace StatsCI.Driver
 open StatsCI
 
-structure Verdict where
-  /-- model output (tokens) -/
-  model : List String
-  /-- admissible distance for float tokens, in units in the last place -/
-  ulps : Nat := 0
-  /-- property-oracle complaints about the implementation's own output -/
-  prop : List String := []
-
 /-- evaluate one request; `none` = the line is malformed -/
-def evalLine (prop op : String) (args impl : List String) : Option Verdict :=
-  let _ := impl
-  match prop with
-  | "C07" | "C13" | "C14" | "C15" | "C19" =>
-      match args with
-      | ty :: rest => (intervalOp op ty rest).map fun m => { model := m }
-      | [] => none
-  | _ => none
+def evalLine (prop op : String) (args : List String) : Option OpEval :=
+  match args with
+  | [] => none
+  | ty :: rest =>
+    match prop with
+    | "C07" | "C13" | "C14" | "C15" | "C19" =>
+        (intervalOp op ty rest).map fun m => { run := fun _ _ => { model := m.map Tok.s } }
+    | _ => statOp op ty rest
 
-def splitArrow (toks : List String) : List String × List String :=
-  let pre := toks.takeWhile (· != "=>")
-  (pre, (toks.drop (pre.length + 1)))
+def splitAt (sep : String) (toks : List String) : List String × List String :=
+  let pre := toks.takeWhile (· != sep)
+  (pre, toks.drop (pre.length + 1))
 
 structure Stats where
   total : Nat := 0
@@ -38,40 +33,69 @@ structure Stats where
   diff : Nat := 0
   prop : Nat := 0
   bad : Nat := 0
+  skipped : Nat := 0
 
-partial def loop (h : IO.FS.Stream) (st : Stats) (lineNo : Nat) : IO Stats := do
+def tokenize (line : String) : List String :=
+  (line.trimAscii.toString.splitOn " ").filter (· != "")
+
+partial def evalLoop (h : IO.FS.Stream) (st : Stats) (lineNo : Nat) : IO Stats := do
   let line ← h.getLine
   if line.isEmpty then return st
-  let toks := (line.trimAscii.toString.splitOn " ").filter (· != "")
+  let toks := tokenize line
+  let short := (line.trimAscii.toString.take 400).toString
   match toks with
-  | [] => loop h st (lineNo + 1)
+  | [] => evalLoop h st (lineNo + 1)
   | prop :: op :: rest =>
-    let (args, impl) := splitArrow rest
-    match evalLine prop op args impl with
+    let (main, critToks) := splitAt "||" rest
+    let (args, impl) := splitAt "=>" main
+    match evalLine prop op args with
     | none =>
-        IO.println s!"BAD {lineNo} :: {line.trimAscii}"
-        loop h { st with total := st.total + 1, bad := st.bad + 1 } (lineNo + 1)
-    | some v =>
-        let (e, x) := toksEq v.ulps v.model impl
-        let mut st := { st with total := st.total + 1 }
+        IO.println s!"BAD {lineNo} :: {short}"
+        evalLoop h { st with total := st.total + 1, bad := st.bad + 1 } (lineNo + 1)
+    | some ev =>
+        let vals := critToks.filterMap parseF64?
+        let tbl : CritTable := (ev.needs.map critKey).zip vals
+        let v := ev.run (critOf tbl) (splitBar impl)
+        let (e, x) := toksMatch v.model impl
+        let mut st := { st with total := st.total + 1, skipped := st.skipped + v.skipped }
         if !v.prop.isEmpty then
-          IO.println s!"PROP {lineNo} {" ".intercalate v.prop} :: {line.trimAscii}"
+          IO.println s!"PROP {lineNo} {" ".intercalate v.prop} :: {short}"
           st := { st with prop := st.prop + 1 }
         if e then
           st := { st with ok := st.ok + 1, bitExact := st.bitExact + (if x then 1 else 0) }
         else
-          IO.println s!"DIFF {lineNo} model=[{" ".intercalate v.model}] :: {line.trimAscii}"
+          let m := (" ".intercalate (v.model.map Tok.render)).take 400
+          IO.println s!"DIFF {lineNo} model=[{m}] :: {short}"
           st := { st with diff := st.diff + 1 }
-        loop h st (lineNo + 1)
+        evalLoop h st (lineNo + 1)
   | _ =>
-    IO.println s!"BAD {lineNo} :: {line.trimAscii}"
-    loop h { st with total := st.total + 1, bad := st.bad + 1 } (lineNo + 1)
+    IO.println s!"BAD {lineNo} :: {short}"
+    evalLoop h { st with total := st.total + 1, bad := st.bad + 1 } (lineNo + 1)
+
+partial def needLoop (h : IO.FS.Stream) : IO Unit := do
+  let line ← h.getLine
+  if line.isEmpty then return
+  let toks := tokenize line
+  match toks with
+  | prop :: op :: rest =>
+    let (main, _) := splitAt "||" rest
+    let (args, _) := splitAt "=>" main
+    match evalLine prop op args with
+    | some ev =>
+      if ev.needs.isEmpty then IO.println "-"
+      else IO.println (" ; ".intercalate (ev.needs.map critKey))
+    | none => IO.println "-"
+  | _ => IO.println "-"
+  needLoop h
 
 end StatsCI.Driver
 
 open StatsCI.Driver in
-def main (_args : List String) : IO UInt32 := do
+def main (args : List String) : IO UInt32 := do
   let stdin ← IO.getStdin
-  let st ← loop stdin {} 1
-  IO.println s!"SUMMARY total={st.total} ok={st.ok} bitexact={st.bitExact} diff={st.diff} prop={st.prop} bad={st.bad}"
-  return 0
+  match args with
+  | ["need"] => needLoop stdin; return 0
+  | _ =>
+    let st ← evalLoop stdin {} 1
+    IO.println s!"SUMMARY total={st.total} ok={st.ok} bitexact={st.bitExact} diff={st.diff} prop={st.prop} bad={st.bad} oracle_skipped={st.skipped}"
+    return 0
